@@ -43,6 +43,8 @@ func cmdRun(args []string) {
 	maxPaths := fs.Int64("maxpaths", 0, "path budget")
 	verbose := fs.Bool("v", false, "verbose")
 	known := fs.String("known", "", "comma separated known finding ids to exclude")
+	maxViol := fs.Int("maxviol", 1, "stop after this many distinct violations")
+	smtlog := fs.String("smtlog", "", "write worker 0's solver transcript here")
 	fs.Parse(args)
 	t0 := time.Now()
 	prog, _, err := loadProgram([]string{"./" + *pkg})
@@ -62,7 +64,7 @@ func cmdRun(args []string) {
 		os.Exit(3)
 	}
 	cfg := exec.Config{Prog: prog, Entry: f, Tier: *tier, SolverBin: *solver, Workers: *workers,
-		ModulePath: modulePath, MaxPaths: *maxPaths, Verbose: *verbose, Known: splitSet(*known)}
+		ModulePath: modulePath, MaxPaths: *maxPaths, Verbose: *verbose, Known: splitSet(*known), SolverLog: *smtlog, OrderInsensitive: orderLemmas(), MaxViolations: *maxViol}
 	res := exec.Run(cfg)
 	printResult(res)
 }
@@ -95,6 +97,19 @@ func printResult(res *exec.Result) {
 	sort.Strings(rl)
 	fmt.Println("reach:", rl)
 	fmt.Println("notes:", st.Notes)
+	type kv struct {
+		k string
+		v int64
+	}
+	var ls []kv
+	for k, v := range st.Labels {
+		ls = append(ls, kv{k, v})
+	}
+	sort.Slice(ls, func(i, j int) bool { return ls[i].v > ls[j].v })
+	if len(ls) > 25 {
+		ls = ls[:25]
+	}
+	fmt.Println("top decision labels:", ls, "maxtrail", st.MaxTrail)
 	fmt.Println("bounds:", st.Bounds)
 	var fl []string
 	for f := range st.Funcs {
